@@ -41,3 +41,14 @@ func init() {
 		os.Exit(0)
 	}
 }
+
+func init() {
+	if len(os.Args) > 1 && os.Args[1] == "dbgrw" {
+		p, err := core.Load("")
+		if err != nil {
+			panic(err)
+		}
+		props.DebugRecvWriters(p)
+		os.Exit(0)
+	}
+}
